@@ -27,8 +27,10 @@ def outcome_obj(c):
 def check_log(obs, run, R):
     bad = []
     for c in obs.calls:
-        if c['out'] is None:
+        if c['out'] is None and c['t'] is not None:
             bad.append(('caller_never_answered', f'call#{c["i"]} key={c["key"]} t={c["t"]}'))
+    if any(c['t'] is None for c in obs.calls):
+        bad.append(('caller_never_answered', 'a chained caller never got to its next call'))
     if bad:
         return bad
     for b in obs.batches:
@@ -39,7 +41,7 @@ def check_log(obs, run, R):
     for c in obs.calls:
         bykey.setdefault(c['key'], []).append(c)
     for k, cs in bykey.items():
-        cs.sort(key=lambda c: (c['t'], c['i']))
+        cs.sort(key=lambda c: (c['t'], c.get('seq', c['i'])))
         origins = []
         for c in cs:
             obj = outcome_obj(c)
@@ -60,6 +62,9 @@ def check_log(obs, run, R):
                         role = 'sharer' if dt < R - H else ('origin' if dt > R + H else None)
                     else:
                         role = 'origin' if dt > H else None
+                if role is None and c.get('after') == o['i']:
+                    # not a tie: this call was issued BY the original caller right after it was answered
+                    role = 'origin' if R == 0 else 'sharer'
                 if role is None:     # exact tie with the answer / the eviction timer: not judged
                     role = 'sharer' if obj is oobj else 'origin'
                 if role == 'sharer' and obj is not oobj:
@@ -119,6 +124,21 @@ def run_case(item):
                             st.count('runs_with_recomputation_after_window')
                         for kind, detail in check_log(obs, run, cfg['R']):
                             st.violation(kind, detail, {'events': ev, 'cfg': cfg, 'script': script, 'form': form})
+    # chained programs: a caller re-requests its key immediately after being answered
+    if n <= 3 and pat == tuple([0] * n):
+        for cfg in cfgs:
+            for nchain in (2, 3):
+                for extra_gap in (None, 0.0, BT + EPS):
+                    ev = [(0.0, ('chain', 0, nchain))] + ([(extra_gap, ('call', 0))] if extra_gap is not None else [])
+                    for sc in ({}, {'0': 'exc'}):
+                        obs, run = B.execute(aiu, ev, cfg, sc)
+                        st.executions += 1
+                        st.transitions += len(obs.calls) + len(obs.batches)
+                        st.sig(('chain', nchain, extra_gap, cfg['mbs'], cfg['mcb'], cfg['batch_dur'], cfg['R'],
+                                tuple(sc.items()), B.describe(obs)))
+                        st.count('chained_programs')
+                        for kind, detail in check_log(obs, run, cfg['R']):
+                            st.violation(kind, detail, {'events': ev, 'cfg': cfg, 'script': sc, 'form': 'class'})
     st.sample({'pattern': pat, 'gaps': gapsets[-1], 'styles': styles, 'cfgs': cfgs[:2]})
     return st
 
